@@ -10,6 +10,7 @@ import (
 	"go/ast"
 	"go/token"
 	"go/types"
+	"golang.org/x/tools/go/ssa"
 	"strings"
 )
 
@@ -286,6 +287,26 @@ func (t *totality) index(fb funcBody, e *ast.IndexExpr, f *facts, pe pathEnv) {
 		c.OK(rule, key, e.Pos(), "contract: "+why)
 		return
 	}
+	// the token spelling table indexed by a Token: Token values are the declared
+	// constants (the array is sized by the last of them) as long as nothing
+	// converts an arbitrary integer to Token, which tokenValuesClosed checks
+	if arrLen >= 0 {
+		if nt, ok := p.Info.TypeOf(e.Index).(*types.Named); ok && nt.Obj().Name() == "Token" && nt.Obj().Pkg() == p.Types {
+			maxTok := int64(-1)
+			tt := p.tokenTable()
+			if tt != nil {
+				for _, v := range tt.Values {
+					if v > maxTok {
+						maxTok = v
+					}
+				}
+			}
+			if tt != nil && maxTok < arrLen && p.tokenValuesClosed() {
+				c.OK(rule, key, e.Pos(), fmt.Sprintf("index has type Token: only the declared constants 0..%d inhabit it (no integer is converted to Token anywhere) and the array has %d elements", maxTok, arrLen))
+				return
+			}
+		}
+	}
 	if arrLen >= 0 && t.roots != nil && t.roots.rooted(e.Index, 0) {
 		if b, ok := p.Info.TypeOf(e.Index).Underlying().(*types.Basic); ok && b.Info()&types.IsInteger != 0 {
 			c.Bad(rule, key, e.Pos(), fmt.Sprintf("a fixed array of %d elements is indexed by input data (%s) with no bound on any path", arrLen, types.ExprString(e.Index)))
@@ -372,4 +393,43 @@ func stripConv(e ast.Expr) ast.Expr {
 		}
 		return e
 	}
+}
+
+// tokenValuesClosed: no non-constant integer is converted to Token, and Token
+// arithmetic is confined to package initialisation (the keyword loop).
+func (p *Program) tokenValuesClosed() bool {
+	tt := p.tokenTable()
+	if tt == nil {
+		return false
+	}
+	for _, fn := range p.SrcFuncs() {
+		for _, f := range append([]*ssa.Function{fn}, fn.AnonFuncs...) {
+			for _, b := range f.Blocks {
+				for _, in := range b.Instrs {
+					switch x := in.(type) {
+					case *ssa.Convert:
+						if types.Identical(x.Type(), tt.Type) {
+							if _, isConst := x.X.(*ssa.Const); !isConst {
+								// Token(len(tokens)) as a bound in a comparison is harmless
+								onlyCompared := true
+								for _, r := range *x.Referrers() {
+									if bo, ok := r.(*ssa.BinOp); !ok || !(bo.Op == token.LSS || bo.Op == token.LEQ || bo.Op == token.GTR || bo.Op == token.GEQ || bo.Op == token.EQL || bo.Op == token.NEQ) {
+										onlyCompared = false
+									}
+								}
+								if !onlyCompared {
+									return false
+								}
+							}
+						}
+					case *ssa.BinOp:
+						if types.Identical(x.Type(), tt.Type) && !isInitFunc(fn.Name()) {
+							return false // Token arithmetic outside init
+						}
+					}
+				}
+			}
+		}
+	}
+	return true
 }
